@@ -5,9 +5,9 @@ import os
 from lib.coqterm import cbool, cN, cZ, cbytes, clist, copt, cpair
 
 ID = "C44"
-QUICK_N = 1200
+QUICK_N = 800
 THOROUGH_N = 9000
-SHARD = 100
+SHARD = 70
 COQ_PRELUDE = "From MV Require Import Model.OptManager.\n"
 RULE = ("80% histories of 4-14 calls on one real OptManager over a universe of 6 option names and 7 typespecs "
         "(bool, int, str, Optional[str], Optional[int], Optional[bool], Sequence[str]): add_option (also re-adding with "
@@ -15,7 +15,7 @@ RULE = ("80% histories of 4-14 calls on one real OptManager over a universe of 6
         "typed, 30% ill-typed or unknown names, bool-for-int, tuples), set(*specs, defer) with int/bool/toggle/multi-value "
         "spec strings, process_deferred, reset, subscribe / changed.connect of up to 4 listeners whose behaviour is a "
         "rule list (reject a value, reject an updated name, reject the k-th call — the last makes listeners reject the "
-        "re-notification of a rollback); 20% YAML cases: non-default values of every type built from a dictionary of "
+        "re-notification of a rollback — and, in 40% of the histories, a re-entrant scenario: a listener that answers x == v with a nested update of another option, optionally chained, plus a rejecting listener ordered after or before it and a subscriber that only hears the nested change); 20% YAML cases: non-default values of every type built from a dictionary of "
         "YAML-special words, quotes, newlines, control and unicode characters, saved with optmanager.save and loaded "
         "into fresh options (direct, deferred + process_deferred, and save-over-existing-file). Non-trivial = a history "
         "with at least one delivered notification, or a YAML case with at least one non-default value.")
@@ -23,7 +23,7 @@ TRUSTED = ["Coq 8.16.1 kernel (coqc), vm_compute for case evaluation",
            "harness/props/C44.py generator, listener closures and comparison glue (Corr/C44.v interp of listener rules)",
            "hand model of OptManager/_Option/check_option_type/_parse_setval incl. Python ==, int(str) for ASCII, dict order; tied by correspondence",
            "ruamel.yaml (save/serialize/parse) is not modelled: the config round-trip clause is checked by the oracle on the real code only"]
-ASSUMPTIONS = ["listeners do not call back into the OptManager while being notified and stay alive (no weakref cleanup); errored receivers do not raise",
+ASSUMPTIONS = ["listeners stay alive (no weakref cleanup); errored receivers do not raise; a re-entrant listener only calls update() and lets its exception propagate (no subscribe/add_option from inside a listener); nesting depth <= 20",
                "listeners raise only OptionsError (another exception class is not rolled back by design of rollback())",
                "kwargs names are distinct (a Python dict); int-typed spec strings are ASCII (unicode digits/spaces of int() are not modelled)",
                "option values are treated as immutable (deepcopy aliasing is not modelled)",
@@ -155,8 +155,8 @@ def cresult(r):
 def cevent(e):
     if e[0] == "E":
         return "Errored"
-    _, l, snap, upd, ok = e
-    return f"Notified {cN(l)} {ckw(snap)} {cnames(upd)} {cbool(ok)}"
+    _, l, snap, upd, kind, _depth = e
+    return f"Notified {cN(l)} {ckw(snap)} {cnames(upd)} {CKIND[kind]}"
 
 
 def cdval(d):
@@ -165,7 +165,12 @@ def cdval(d):
     return f"DVal {cval(d['v'])}"
 
 
+CKIND = {"A": "KAccept", "R": "KReject", "K": "KNested"}
+
+
 def crule(r):
+    if r[0] == "nest":
+        return f"NestIf {cN(r[1])} {cval(r[2])} {ckw(r[3])}"
     if r[0] == "val":
         return f"RejValue {cN(r[1])} {cval(r[2])}"
     if r[0] == "upd":
@@ -307,6 +312,65 @@ def gen_history(rng):
             pos = sorted(rng.randint(1, len(ops)) for _ in seq)
             for off, (at, o) in enumerate(zip(pos, seq)):
                 ops.insert(at + off, o)
+    # re-entrant scenario: listener A answers x == vx with a nested update of a LATER option y (as addons do from
+    # configure; later-only keeps the nesting acyclic), optionally chained through C (y -> z), and a listener B
+    # ordered after (sometimes before) them rejects x, y or a particular call
+    if rng.chance(0.4) and len(types) >= 2:
+        have = sorted(types)
+        x = rng.choice(have[:-1])
+        y = rng.choice([n for n in have if n > x])
+        vx, wy = good_value(rng, types[x]), good_value(rng, types[y])
+        nkw = [[y, wy]]
+        if rng.chance(0.15) and [n for n in range(x + 1, 6) if n != y]:
+            nkw.append([rng.choice([n for n in range(x + 1, 6) if n != y]), any_value(rng)])  # sometimes ill-typed / unknown inside the nested call
+            # (every name a nested update touches is > x, so nesting is acyclic and at most 6 deep)
+        ids = []
+
+        def new_listener(rules):
+            l = len(listeners)
+            listeners[str(l)] = rules
+            ids.append(l)
+            return l
+        a = new_listener([["nest", x, vx, nkw]] + ([["call", rng.below(5)]] if rng.chance(0.1) else []))
+        zs = [n for n in have if n > y]
+        if zs and rng.chance(0.4):
+            z = rng.choice(zs)
+            new_listener([["nest", y, wy, [[z, good_value(rng, types[z])]]]])
+        r = rng.random()
+        if r < 0.3:
+            brule = [["val", x, vx]]
+        elif r < 0.5:
+            brule = [["upd", x]]
+        elif r < 0.65:
+            brule = [["val", y, wy]]
+        elif r < 0.85:
+            brule = [["call", rng.below(6)]]
+        else:
+            brule = []
+        b = new_listener(brule)
+        if rng.chance(0.2):
+            ids.reverse()
+        tail = []
+        for l in ids:
+            if rng.chance(0.75):
+                tail.append({"op": "connect", "l": l})
+            else:
+                tail.append({"op": "subscribe", "l": l, "opts": rng.sample([x, y], rng.randint(1, 2))})
+        if rng.chance(0.3):
+            tail.append({"op": "subscribe", "l": new_listener([]), "opts": [y]})   # only told by the nested send
+        trigger = {"op": "update", "kw": [[x, vx]] + (kwargs(1) if rng.chance(0.2) else [])}
+        if rng.chance(0.2):
+            trigger = {"op": "set", "specs": [[x, vx["s"]]], "defer": False} if isinstance(vx, dict) and "s" in vx else trigger
+        tail.append(trigger)
+        for _ in range(rng.randint(0, 2)):
+            rr = rng.random()
+            if rr < 0.4:
+                tail.append({"op": "update", "kw": [[x, vx]]})
+            elif rr < 0.7:
+                tail.append({"op": "update", "kw": [[y, good_value(rng, types[y])]]})
+            else:
+                tail.append({"op": "update", "kw": [[x, good_value(rng, types[x])]]})
+        ops.extend(tail)
     # listeners are mostly attached early so that they take part
     if nlisten and rng.chance(0.8):
         pre = []
@@ -410,7 +474,8 @@ def run_hist(case):
     idx = {n: i for i, n in enumerate(NAMES)}
     events = []
     calls = {}
-    keep = []
+    depth = [0]
+    nested_fail = []
 
     def snapshot():
         return [[idx[k], enc(p.current())] for k, p in o._options.items()]
@@ -418,6 +483,7 @@ def run_hist(case):
     def make(l, rules):
         def body(updated):
             fired = False
+            nest = None
             for r in rules:
                 if r[0] == "val":
                     nm = NAMES[r[1]]
@@ -426,12 +492,27 @@ def run_hist(case):
                 elif r[0] == "upd":
                     if NAMES[r[1]] in updated:
                         fired = True
+                elif r[0] == "nest":
+                    nm = NAMES[r[1]]
+                    if nest is None and nm in updated and nm in o._options and o._options[nm].current() == dec(r[2]):
+                        nest = r[3]
                 elif calls.get(l, 0) == r[1]:
                     fired = True
             calls[l] = calls.get(l, 0) + 1
-            events.append(["N", l, snapshot(), sorted(idx[u] for u in updated), not fired])
+            kind = "R" if fired else "K" if nest is not None else "A"
+            events.append(["N", l, snapshot(), sorted(idx[u] for u in updated), kind, depth[0]])
             if fired:
                 raise exc.OptionsError(f"listener {l} rejects")
+            if nest is not None:
+                # what addons do from configure: a nested update of other options; exceptions propagate
+                depth[0] += 1
+                try:
+                    o.update(**{NAMES[n]: dec(v) for n, v in nest})
+                except Exception as e:
+                    nested_fail.append(_errname(e))
+                    raise
+                finally:
+                    depth[0] -= 1
 
         def as_subscriber(opts, updated):
             body(updated)
@@ -443,11 +524,12 @@ def run_hist(case):
     fns = {int(l): make(int(l), rules) for l, rules in case["listeners"].items()}
 
     def on_error(exc):
-        events.append(["E"])
+        events.append(["E", depth[0]])
     o.errored.connect(on_error)
     steps = []
     for op in case["ops"]:
         del events[:]
+        del nested_fail[:]
         k = op["op"]
         res = "ok"
         try:
@@ -483,6 +565,7 @@ def run_hist(case):
             "defd": [[idx[n], ({"u": list(v.val)} if isinstance(v, om._UnconvertedStrings) else {"v": enc(v)})]
                      for n, v in o.deferred.items()],
             "evs": [list(e) for e in events],
+            "nested_fail": list(nested_fail),
         })
     return {"vt": _st["vt"], "vu": _st["vu"], "steps": steps}
 
@@ -610,31 +693,53 @@ def oracle_hist(case, obs):
         cur = [[n, c] for n, _t, _u, c, _d in now]
         before = [[n, c] for n, _t, _u, c, _d in prev]
         failed = isinstance(res, dict) and "err" in res
+        has_nested = any(e[0] == "N" and e[4] == "K" for e in st["evs"])
+        # a nested update that raised something else than OptionsError makes the listener raise it too, which is
+        # outside the property (rollback() is specified for OptionsError only)
+        foreign = any(x != "options" for x in st.get("nested_fail", []))
+        # the re-notification of the outermost rollback: depth-0 events after the depth-0 .errored marker
+        outer_e = next((j for j, e in enumerate(st["evs"]) if e[0] == "E" and e[1] == 0), None)
+        renotify = [e for e in st["evs"][outer_e + 1:] if e[0] == "N" and e[5] == 0] if outer_e is not None else []
+        renotify_nested = any(e[4] == "K" for e in renotify)
+        renotify_rejected = any(e[4] == "R" for e in renotify)
         # (1) typed, after every call of any kind
         for n, ty, _u, c, d in now:
             if not _typed(c, ty) or not _typed(d, ty):
                 v.append({"key": "ill-typed-value", "what": f"step {i} ({k}): option {NAMES[n]} of type {ty} holds {c}"})
-        if k in UPDATEISH and failed:
-            # (2) a rejected update leaves every option at its previous value
+        if k in UPDATEISH and failed and not foreign:
+            # (2) a rejected update leaves EVERY option at its previous value (also those changed by nested updates)
             if not _snap_eq(before, cur):
                 key = {"type": "typeerror-partial-assign", "key": "unknown-option-partial-assign"}.get(res["err"], "rollback-incomplete")
+                if key == "rollback-incomplete" and renotify_nested:
+                    key = "renotify-nested-update"
                 v.append({"key": key, "what": f"step {i}: {k} raised {res['err']} but options went {before} -> {cur}"})
             # (3) every listener that was notified ends up having seen the restored state
             last = {}
-            after_err = False
-            renotify_rejected = False
             for e in st["evs"]:
-                if e[0] == "E":
-                    after_err = True
-                    continue
-                last[e[1]] = e[2]
-                if after_err and not e[4]:
-                    renotify_rejected = True
+                if e[0] == "N":
+                    last[e[1]] = e[2]
             stale = [l for l, s in last.items() if not _snap_eq(s, cur)]
             if stale:
-                key = "renotify-aborted" if renotify_rejected else "listener-stale"
+                outer_listeners = {e[1] for e in st["evs"] if e[0] == "N" and e[5] == 0}
+                if renotify_rejected:
+                    key = "renotify-aborted"
+                elif renotify_nested:
+                    key = "renotify-nested-update"
+                elif all(l not in outer_listeners for l in stale):
+                    key = "nested-change-rolled-back-silently"   # only told by a nested send, never re-notified
+                else:
+                    key = "listener-stale"
                 v.append({"key": key, "what": f"step {i}: {k} was rejected, options are {cur}, but listener(s) {stale} last saw {last[stale[0]]}"})
-        if k in ("update", "update_known", "update_defer", "setattr") and not failed and prev:
+        if k in ("update", "update_known", "update_defer", "setattr") and not failed and prev and has_nested:
+            # with nested updates in between only the outermost notifications are predictable here
+            kw = op["kw"] if "kw" in op else [[op["n"], op["v"]]]
+            have = {n for n, _ in before}
+            names = sorted({n for n, _ in kw if n in have})
+            want = [l for l, o in subs if set(o) & set(names)] + recs if names else []
+            got = [e for e in st["evs"] if e[0] == "N" and e[5] == 0]
+            if sorted(e[1] for e in got) != sorted(want) or any(e[3] != names or e[4] == "R" for e in got):
+                v.append({"key": "accepted-notify-wrong", "what": f"step {i}: {k} assigned {names}; expected outer listeners {want} with that set, got {got}"})
+        if k in ("update", "update_known", "update_defer", "setattr") and not failed and prev and not has_nested:
             kw = op["kw"] if "kw" in op else [[op["n"], op["v"]]]
             have = {n for n, _ in before}
             assigned = [(n, val) for n, val in kw if n in have]
@@ -642,18 +747,18 @@ def oracle_hist(case, obs):
             want = [l for l, o in subs if set(o) & set(names)] + recs if names else []
             got = [e for e in st["evs"] if e[0] == "N"]
             if (sorted(e[1] for e in got) != sorted(want) or len(got) != len(st["evs"])
-                    or any(e[3] != names or not e[4] or not _snap_eq(e[2], cur) for e in got)):
+                    or any(e[3] != names or e[4] != "A" or not _snap_eq(e[2], cur) for e in got)):
                 v.append({"key": "accepted-notify-wrong", "what": f"step {i}: {k} assigned {names}; expected listeners {want} once each with that set and the new values, got {st['evs']}"})
             final = dict((n, val) for n, val in assigned)
             for (n, c), (_n, b) in zip(cur, before):
                 if (n in final and c != final[n]) or (n not in final and not _veq(c, b)):
                     v.append({"key": "accepted-values-wrong", "what": f"step {i}: {k}({kw}) accepted but option {NAMES[n]} is {c}"})
                     break
-        if k in ("set", "process_deferred") and not failed:
+        if k in ("set", "process_deferred") and not failed and not has_nested:
             got = [e for e in st["evs"] if e[0] == "N"]
             ups = {tuple(e[3]) for e in got}
             changed = {n for (n, c), (_n, b) in zip(cur, before) if not _veq(c, b)}
-            if len(ups) > 1 or len(got) != len(st["evs"]) or any(not e[4] or not _snap_eq(e[2], cur) for e in got) \
+            if len(ups) > 1 or len(got) != len(st["evs"]) or any(e[4] != "A" or not _snap_eq(e[2], cur) for e in got) \
                     or (changed and got and not changed <= set(got[0][3])):
                 v.append({"key": "accepted-notify-wrong", "what": f"step {i}: {k} accepted, changed {sorted(changed)}, notifications {st['evs']}"})
         # deferred options: applied and forgotten on success, kept on failure
@@ -663,7 +768,7 @@ def oracle_hist(case, obs):
                 v.append({"key": "deferred-not-consumed", "what": f"step {i}: process_deferred succeeded but {st['defd']} still holds an existing option"})
             if failed and st["defd"] != prev_defd:
                 v.append({"key": "deferred-lost", "what": f"step {i}: process_deferred raised {res['err']} and deferred went {prev_defd} -> {st['defd']}"})
-            if not failed:
+            if not failed and not has_nested:
                 for n, dv in prev_defd:
                     if n in have_now and "v" in dv and not _veq(dict(cur)[n], dv["v"]):
                         v.append({"key": "deferred-not-applied", "what": f"step {i}: deferred {NAMES[n]}={dv['v']} but the option is {dict(cur)[n]}"})
@@ -756,8 +861,18 @@ def classify(case, obs):
             tags.add("rollback")
             es = st["evs"]
             after = es[[e[0] for e in es].index("E") + 1:]
-            if any(not e[4] for e in after):
+            if any(e[0] == "N" and e[4] == "R" for e in after):
                 tags.add("renotify-rejected")
+        if any(e[0] == "N" and e[4] == "K" for e in st["evs"]):
+            tags.add("nested")
+            if any(e[0] == "N" and e[5] >= 2 for e in st["evs"]):
+                tags.add("nested-depth>=2")
+            if any(e[0] == "E" and e[1] == 0 for e in st["evs"]):
+                tags.add("nested+outer-rollback")
+            if any(e[0] == "E" and e[1] > 0 for e in st["evs"]):
+                tags.add("nested-rollback")
+            if st.get("nested_fail") and any(x != "options" for x in st["nested_fail"]):
+                tags.add("nested-foreign-exception")
         if st["defd"]:
             tags.add("deferred-nonempty")
     return sorted(tags)
